@@ -99,6 +99,8 @@ func c04Exec(in *C04Input) *C04Obs {
 		}
 	}
 	gate := NewGate(n)
+	gate.Only = map[string]bool{"q:enq": true, "pq:entry": true, "pq:cas": true, "pq:loop": true,
+		"pq:pop": true, "pq:release": true, "pq:released": true}
 	m.VerifSetSched(gate.Point)
 	defer m.VerifSetSched(nil)
 
